@@ -154,7 +154,9 @@ def traj_out(pomdp, tr, s0_label):
         steps_out.append({"s": sl.index(st.state), "a": al.index(st.action) if st.action is not None else None,
                           "ns": sl.index(st.nextstate) if st.nextstate is not None else None,
                           "r": fj(st.reward) if st.reward is not None else None,
-                          "o": ol.index(st.observation) if st.observation is not None else None,
+                          # a value that is not in the observation list (None, ...) on a step that was taken is reported as such
+                          "o": (ol.index(st.observation) if st.observation in ol else
+                                (None if st.action is None else {"outside_observation_list": repr(st.observation)})),
                           "ag": fjn(_np(st.agentstate)),
                           "nag": fjn(_np(st.nextagentstate)) if st.nextagentstate is not None else None})
     return {"s0": sl.index(s0_label) if s0_label is not None else None, "steps": steps_out}
